@@ -6,6 +6,8 @@
 #define REF_GF2_H
 #include <stdint.h>
 #include <string.h>
+#include <stdio.h>
+#include <stdlib.h>
 
 #define GW 5
 typedef struct { uint64_t w[GW]; } gf2;
@@ -29,8 +31,23 @@ static gf2 gf_mul(gf2 a, gf2 b) {
 	gf2 o; memcpy(o.w, r, sizeof o.w); return o;
 }
 static gf2 gf_sqr(gf2 a) { return gf_mul(a, a); }
-/* a^(2^m - 2) */
-static gf2 gf_inv(gf2 a) { gf2 r = gf_one(), s = a; for (int i = 1; i < GF_M; i++) { s = gf_sqr(s); r = gf_mul(r, s); } return r; }
+static gf2 gf_shl(gf2 a, int j) { gf2 r = gf_zero(); int ws = j >> 6, bs = j & 63; for (int i = GW - 1; i >= ws; i--) { r.w[i] = a.w[i - ws] << bs; if (bs && i - ws - 1 >= 0) r.w[i] |= a.w[i - ws - 1] >> (64 - bs); } return r; }
+/* a^(2^m - 2) by Fermat: kept as the definition, used to cross-check the Euclidean inverse on first use */
+static gf2 gf_inv_fermat(gf2 a) { gf2 r = gf_one(), s = a; for (int i = 1; i < GF_M; i++) { s = gf_sqr(s); r = gf_mul(r, s); } return r; }
+/* polynomial extended Euclid over GF(2): u g1 = a (mod f) invariant */
+static gf2 gf_inv(gf2 a) {
+	gf2 u = a, v = GF_POLY, g1 = gf_one(), g2 = gf_zero();
+	int du = gf_deg(u), dv = GF_M;
+	while (du > 0) {
+		int j = du - dv;
+		if (j < 0) { gf2 t = u; u = v; v = t; t = g1; g1 = g2; g2 = t; int td = du; du = dv; dv = td; j = -j; }
+		u = gf_add(u, gf_shl(v, j)); g1 = gf_add(g1, gf_shl(g2, j));
+		du = gf_deg(u);
+	}
+	static int checked = 0;
+	if (checked < 50) { checked++; if (!gf_eq(g1, gf_inv_fermat(a))) { fprintf(stderr, "reference self-check failed: Euclidean inverse != Fermat inverse\n"); exit(2); } }
+	return g1;
+}
 static gf2 gf_sqrt(gf2 a) { for (int i = 1; i < GF_M; i++) a = gf_sqr(a); return a; }
 static int gf_trace(gf2 a) { gf2 t = a, s = a; for (int i = 1; i < GF_M; i++) { s = gf_sqr(s); t = gf_add(t, s); } return gf_bit(t, 0); }
 /* half-trace (m odd): solves z^2 + z = a when Tr(a) = 0 */
